@@ -272,6 +272,9 @@ func (s *Space) variants() []Variant {
 			Variant{Name: "filter-" + n, Thr: defaultThreshold, Withhold: -1, Filter: x, When: whenInterior},
 		)
 	}
+	for x := range s.Fam.Children {
+		vs = append(vs, Variant{Name: "then-filter-" + s.Fam.Names[x], Thr: defaultThreshold, Withhold: -1, Filter: -1, Refilter: x + 1, KeepRefs: true, When: whenInterior})
+	}
 	vs = append(vs, Variant{Name: "filter-none", Thr: defaultThreshold, Withhold: -1, Filter: -2, When: whenInterior})
 	vs = append(vs, Variant{Name: "filter-all", Thr: defaultThreshold, Withhold: -1, Filter: -3, When: whenInterior})
 
@@ -846,6 +849,23 @@ func (k *worker) evalVariant(v Variant, times []time.Time) *truth {
 	k.finds = t.compare(p, times, k.finds[:0])
 	for _, fd := range k.finds {
 		k.violation(v, fd.key, fd.what)
+	}
+	if v.Refilter > 0 && len(k.finds) == 0 {
+		accept := f.Children[v.Refilter-1]
+		again := append(append([]annotate.Option(nil), opts...), annotate.ChildFilter(func(id osm.FeatureID) bool { return id == accept }))
+		err, panicked := callLibrary(f.IsWay(), p, ds, again)
+		k.calls++
+		switch {
+		case panicked != nil:
+			k.violation(v, "panic/"+pre+"annotate-again-with-filter", fmt.Sprintf("the second, filtered call panicked: %v", panicked))
+		case err != nil:
+			k.violation(v, "filtered-reannotation/"+pre+"error", fmt.Sprintf("annotating the annotated parents again with a filter accepting only %v failed: %v", accept, err))
+		default:
+			k.finds = t.compare(p, times, k.finds[:0])
+			for _, fd := range k.finds {
+				k.violation(v, "filtered-reannotation/"+fd.key, "after a second call with ChildFilter(only "+fmt.Sprint(accept)+") on the annotated parents: "+fd.what)
+			}
+		}
 	}
 	return t
 }
